@@ -56,6 +56,14 @@ VCLAUSE(spaces, 12, 12000, 250000, "limits given in descending order, or more th
 	}
 	if(s.chance(0.05))
 		b = a;
+	if(!logsp && s.chance(0.08))
+	{
+		// grids of tiny absolute extent next to the origin (limits 1e-300..1e-15): small is not degenerate
+		double m = std::pow(10.0, s.uniform(-300, -15));
+		a = s.chance(0.3) ? 0.0 : s.sign() * m * s.unit();
+		b = s.sign() * m * (0.1 + s.unit());
+		c.cls("tiny_absolute_extent");
+	}
 	double scale = std::max(std::fabs(a), std::fabs(b));
 	bool distinct = (a != b);
 	if(distinct && std::fabs(b - a) < 1e-12 * scale)
